@@ -104,7 +104,7 @@ type monitored struct {
 }
 
 func (m *monitored) Explain() (string, []model.VectorOperator) { return m.next.Explain() }
-func (m *monitored) GetPool() *model.VectorPool             { return m.next.GetPool() }
+func (m *monitored) GetPool() *model.VectorPool                { return m.next.GetPool() }
 
 func (m *monitored) numSteps() int {
 	if m.step == 0 {
@@ -259,4 +259,5 @@ func (m *monitored) check(ctx context.Context, out []model.StepVector) {
 		}
 	}
 }
+
 const Enabled = true
